@@ -323,7 +323,8 @@ def run(M, c):
             if hist:
                 form, tzopt = "se", prev[3]       # both endpoints are parsed again, under the same options
             prev = (u1, u2, off1, tzopt)
-            _interval(M, {"k": "iv", "u1": u1, "u2": u2, "off1": off1, "off2": off2, "form": form, "d": [dy, dmo, dd, dh, dmi, ds], "tz": tzopt})
+            _interval(M, {"k": "iv", "u1": u1, "u2": u2, "off1": off1, "off2": off2, "form": form, "d": [dy, dmo, dd, dh, dmi, ds], "tz": tzopt,
+                          "dateonly": (None, "start", "end", "both")[i // 7 % 4] if i % 7 == 3 and not hist else None, "exact": i % 5 == 0})
         return
 
 
@@ -347,6 +348,12 @@ def _interval(M, c):
     P = M.pendulum
     s1, F1, o1 = _dts(c["u1"], c["off1"])
     s2, F2, o2 = _dts(c["u2"], c["off2"])
+    if c.get("dateonly") in ("start", "both"):
+        F1, o1 = F1[:3] + (0, 0, 0, 0), None         # a calendar date denotes its first instant
+        s1 = "%04d-%02d-%02d" % F1[:3]
+    if c.get("dateonly") in ("end", "both"):
+        F2, o2 = F2[:3] + (0, 0, 0, 0), None
+        s2 = "%04d-%02d-%02d" % F2[:3]
     dy, dmo, dd, dh, dmi, ds = c["d"]
     dstr = "P" + (f"{dy}Y" if dy else "") + (f"{dmo}M" if dmo else "") + (f"{dd}D" if dd else "") + \
         ("T" + (f"{dh}H" if dh else "") + (f"{dmi}M" if dmi else "") + (f"{ds}S" if ds else "") if (dh or dmi or ds) else "")
@@ -356,6 +363,8 @@ def _interval(M, c):
     form = c["form"]
     text = {"se": f"{s1}/{s2}", "sd": f"{s1}/{dstr}", "de": f"{dstr}/{s2}"}[form]
     opts = {"tz": c["tz"]} if c["tz"] else {}
+    if c.get("exact"):
+        opts["exact"] = True            # an interval is an interval under every option
     saved = M.current
     M.current = dict(c)
     M.current["text"] = text
